@@ -354,7 +354,16 @@ impl C20 {
           let (ti, ci) = order[i % order.len()];
           if let Some(input) = &inputs_arc[ti][ci] {
             let c = &tasks_arc[ti][ci];
-            let _ = do_call(&evals[&c.model], &c.invocable, input);
+            // every second warm-up call of the simulator's own model has an input of its own, so that state
+            // keyed by the input (caches with a bound, say) fills up and turns over
+            let own = if c.model == "gen" && i % 2 == 1 {
+              let u = 100_000 + i as u64;
+              let text = if c.invocable == "label" { format!("{{n: {}, t: \"wu{}_1\"}}", u, u) } else { format!("{{x: {}, s: \"wu{}_1\"}}", u, u) };
+              catch_unwind(|| dmntk_feel_evaluator::evaluate_context(&Scope::default(), &text)).ok().and_then(|r| r.ok())
+            } else {
+              None
+            };
+            let _ = do_call(&evals[&c.model], &c.invocable, own.as_ref().unwrap_or(input));
             dmntk_verif_sync::flush();
           }
         }
